@@ -21,6 +21,87 @@ type env struct {
 	pkgPath   string
 	typesOnly bool
 	depth     int
+	iterEnv   *env
+	pointBlock *ssa.BasicBlock // program point for resolving local variable names (nil: no locals)
+	pointIdx   int
+}
+
+// usePoint makes local variable names resolve at the current program point of the top frame.
+func (e *env) usePoint() {
+	top := e.f
+	if p := e.f.parent(); p != nil {
+		top = p
+	}
+	e.pointBlock, e.pointIdx = top.curBlock, top.curIdx
+	// inside a loop body the header's loop-carried variables are visible under their source names;
+	// idx is the index of the last completed iteration (the element being processed is idx+1)
+	var inner *loopInfo
+	for _, li := range top.loops {
+		if li.blocks[top.curBlock] && (inner == nil || inner.blocks[li.header]) && li.phiSyms != nil {
+			inner = li
+		}
+	}
+	if inner != nil {
+		for phi, s := range inner.phiSyms {
+			if phi.Comment == "rangeindex" {
+				e.vars["idx"] = s
+			} else if phi.Comment != "" {
+				if _, exists := e.vars[phi.Comment]; !exists {
+					e.vars[phi.Comment] = s
+				}
+			}
+		}
+	}
+}
+
+// localByName resolves a source-level local through the DebugRef instructions that dominate the point.
+func (e *env) localByName(name string) *sym {
+	if e.pointBlock == nil || e.f == nil {
+		return nil
+	}
+	top := e.f
+	if p := e.f.parent(); p != nil {
+		top = p
+	}
+	if top.fn == nil || e.pointBlock.Parent() != top.fn {
+		return nil
+	}
+	var best *ssa.DebugRef
+	bestIdx := -1
+	for _, b := range top.fn.Blocks {
+		for i, in := range b.Instrs {
+			d, ok := in.(*ssa.DebugRef)
+			if !ok || d.Object() == nil || d.Object().Name() != name {
+				continue
+			}
+			if v, isVar := d.Object().(*types.Var); !isVar || v.IsField() {
+				continue
+			}
+			dom := (b == e.pointBlock && i < e.pointIdx) || (b != e.pointBlock && b.Dominates(e.pointBlock))
+			if !dom {
+				continue
+			}
+			if _, have := top.vals[d.X]; !have {
+				switch d.X.(type) {
+				case *ssa.Const, *ssa.Global, *ssa.Function:
+				default:
+					continue
+				}
+			}
+			later := best == nil || (best.Block() == b && i > bestIdx) || (best.Block() != b && best.Block().Dominates(b))
+			if later {
+				best, bestIdx = d, i
+			}
+		}
+	}
+	if best == nil {
+		return nil
+	}
+	v := top.val(best.X)
+	if best.IsAddr {
+		return &sym{typ: derefType(best.X.Type()), pl: e.vc.placeOfPointer(v)}
+	}
+	return v
 }
 
 func (f *frame) env(cur, old *state) *env {
@@ -148,6 +229,9 @@ func (e *env) ident(name string) *sym {
 			}
 		}
 	}
+	if s := e.localByName(name); s != nil {
+		return s
+	}
 	if k, so, ok := e.vc.ghostKey(name); ok {
 		return e.ghostRead(name, k, so)
 	}
@@ -219,6 +303,11 @@ func (e *env) value(x Expr) *sym {
 		n.cur = e.old
 		s := n.rvalue(x.X)
 		return s
+	case *EIter:
+		if e.iterEnv == nil {
+			e.errf("iter() is only available in loop step clauses: %s", x)
+		}
+		return e.iterEnv.rvalue(x.X)
 	case *EIte:
 		c := e.boolExpr(x.C)
 		a, b := e.rvalue(x.A), e.rvalue(x.B)
@@ -307,6 +396,12 @@ func (e *env) value(x Expr) *sym {
 			name := fmt.Sprintf("q_%s_%d", mangle(b.Name), vc.n)
 			n.vars[b.Name] = &sym{t: name, typ: ty}
 			delete(n.vars, "&"+b.Name)
+			if n.iterEnv != nil {
+				if n.iterEnv == e.iterEnv {
+					n.iterEnv = e.iterEnv.clone()
+				}
+				n.iterEnv.vars[b.Name] = n.vars[b.Name]
+			}
 			binders = append(binders, "("+name+" "+so.sortOf(ty)+")")
 		}
 		body := n.boolExpr(x.Body)
@@ -541,6 +636,12 @@ func (e *env) call(x *ECall) *sym {
 		return &sym{t: "(select " + e.f.visitedAt(rg, e.cur) + " " + k.t + ")", typ: tBool}
 	case "mapref", "sliceref", "ref":
 		return arg(0)
+	case "upd":
+		m, k, v := arg(0), arg(1), arg(2)
+		if m.bound == nil {
+			e.errf("upd: first argument must be a ghost map")
+		}
+		return &sym{t: "(store " + m.t + " " + k.t + " " + v.t + ")", typ: m.typ, bound: m.bound}
 	}
 	d := vc.w.defs[x.F]
 	if d == nil {
@@ -672,6 +773,8 @@ func mentions(x Expr, name string) bool {
 	case *ESlice:
 		return mentions(x.X, name) || (x.Lo != nil && mentions(x.Lo, name)) || (x.Hi != nil && mentions(x.Hi, name))
 	case *EOld:
+		return mentions(x.X, name)
+	case *EIter:
 		return mentions(x.X, name)
 	case *EQuant:
 		return mentions(x.Body, name)
